@@ -19,7 +19,23 @@ from .core import DomainError, HarnessError, SymBool, cur, have_ctx
 
 Number = Union[int, float, Fraction]
 
-CONFIG = {"exp_uf": None, "log_uf": None}
+CONFIG = {"exp_uf": None, "log_uf": None, "abstract_args": False}
+
+
+def abstract_arg(term):
+    """In 'abstract_args' mode a compound term handed to an uninterpreted function is replaced by a variable that
+    is a function of the term's identity only (same term -> same variable, no defining equation).  This forgets how
+    the argument was computed - a sound over-approximation for proving, used where the property does not depend on
+    the arithmetic of the argument (relational / coherence obligations)."""
+    if not CONFIG["abstract_args"] or z3.is_const(term) or z3.is_rational_value(term):
+        return term
+    c = cur()
+    cache = c.notes.setdefault("_arg_names", {})
+    key = term.get_id()
+    if key not in cache:
+        cache[key] = (z3.Real(f"arg!{len(cache)}"), term)
+    return cache[key][0]
+
 
 
 def _is_number(x) -> bool:
@@ -355,12 +371,18 @@ class SymReal:
         if self.sign is None and not (self.c > 0 and self._num_positive()):
             if not c.branch(self.n >= 0):
                 raise DomainError("sqrt of a negative value")
-        r = z3.Real(c.fresh_name("sqrt"))
-        c.assume(r >= 0)
-        c.assume(_mul(r * r, self.d) == self.n)
         pos = self.sign == "+" or (self.c > 0 and self._num_positive())
-        if pos:
-            c.assume(r > 0)
+        cache = c.notes.setdefault("_sqrt_cache", {})
+        key = (self.n.get_id(), self.d.get_id())
+        if key in cache:  # the same radicand has one (non-negative) root: reuse its variable
+            r = cache[key][0]
+        else:
+            r = z3.Real(c.fresh_name("sqrt"))
+            cache[key] = (r, self.n, self.d)
+            c.assume(r >= 0)
+            c.assume(_mul(r * r, self.d) == self.n)
+            if pos:
+                c.assume(r > 0)
         return SymReal(_raw=(Fraction(1), {r.get_id(): (r, 1, pos)}, {}, "+" if pos else "0+"))
 
     def __abs__(self):
@@ -448,7 +470,7 @@ class SymReal:
             if self.sign != "+" and not (self.c > 0 and self._num_positive()):
                 if not cur().branch(self.n > 0):
                     raise DomainError("log of a non-positive value")
-            return SymReal(CONFIG["log_uf"](self.term()), _ONE, None)
+            return SymReal(CONFIG["log_uf"](abstract_arg(self.term())), _ONE, None)
         if self.sign != "+" and not (self.c > 0 and self._num_positive()):
             if not cur().branch(self.n > 0):
                 raise DomainError("log of a non-positive value")
@@ -461,6 +483,7 @@ class SymReal:
             return SymReal.const(1)
         if CONFIG["exp_uf"] is not None:
             # uninterpreted, positive, (congruent) exponential: sound over-approximation of exp
+            # (the argument of exp is kept: relational obligations need beta*(l'+c - l-c) == beta*(l'-l))
             return SymReal(CONFIG["exp_uf"](self.term()), _ONE, "+")
         raise HarnessError("exp of a plain real is transcendental; use LogVal inputs")
 
@@ -477,8 +500,13 @@ class SymReal:
         cc = self.concrete()
         if cc is not None:
             return SymReal.const(math.floor(cc))
+        cache = c.notes.setdefault("_floor_cache", {})
+        key = (self.n.get_id(), self.d.get_id())
+        if key in cache:
+            return SymReal(cache[key][0], _ONE, None)
         k = z3.Int(c.fresh_name("floor"))
         kr = z3.ToReal(k)
+        cache[key] = (kr, self.n, self.d)
         c.assume(z3.And(_mul(kr, self.d) <= self.n, self.n < _mul(kr + 1, self.d)))
         return SymReal(kr, _ONE, None)
 
